@@ -256,7 +256,6 @@ func genNames(gen int) (tool, ns, tie string) {
 		return "tools/ssa2lean2", "Low.Gen.Ssa2", "LowProofs/Tie2"
 	case 3:
 		return "tools/ssa2lean3", "Low.Gen.Ssa3", "LowProofs/Tie3"
-	}
 	case 4:
 		return "tools/ssa2lean4", "Low.Gen.Ssa4", "LowProofs/Tie4"
 	}
